@@ -1,5 +1,5 @@
 """Property -> rules.  Each entry: run(prog, tier) -> (obligations, floors, meta)."""
-from .rules import bounds, arith, index
+from .rules import bounds, arith, index, numctor, cmp
 
 COMMON_TRUST = [
     "rustc nightly HIR/MIR construction, trait resolution and const evaluation",
@@ -128,7 +128,32 @@ def c20(prog, tier):
     return obs, floors, meta
 
 
+def c09(prog, tier):
+    obs, floors, an = merge(numctor.run(prog), cmp.run(prog))
+    meta = {
+        "level": "other",
+        "explanation": (
+            "Static decision of the structural clauses of C09: (1) every construction of NumValue is dominated by "
+            "is_finite() on the same value, or is a lossless <=32-bit integer conversion, or a 64-bit integer conversion "
+            "under both safe-integer guards; no transmute fabricates one (so NaN/inf cannot be held by Val::Num); builtin "
+            "f64 results re-enter through Val::try_num. (2) One order/equality: NumValue::cmp is IEEE partial_cmp of the "
+            "payloads, NumValue::eq / primitive_equals are exact ==, evaluate_compare_op orders numbers by NumValue::cmp(a,b), "
+            "the relational arms use the matching Ordering predicate, the sort fast paths key on NumValue, no total_cmp. "
+            "(3) bitwise/shift arms range-check both operands and reject negative counts on the raw operand; / and % are "
+            "dominated by the exact zero-divisor test. NOT decided: correct rounding, libm agreement of composite functions."),
+        "rule": "R-NUMCTOR (MIR aggregate sites + dominating facts) and R-CMP (MIR callee identity + HIR match-arm tables)",
+        "rules": ["R-NUMCTOR", "R-CMP"],
+        "analysed": an,
+        "decided": "finite-only construction; single numeric order/equality; operand range checks; zero-divisor guard",
+        "not_decided": "IEEE rounding of + - * /; values returned by libm; shift results",
+        "trusted_base": COMMON_TRUST,
+        "assumptions": ["f64::is_finite, partial_cmp have their std semantics"],
+    }
+    return obs, floors, meta
+
+
 PROPS = {
+    "C09": {"run": c09, "thorough_cfgs": ["default", "experimental"]},
     "C04": {"run": c04},
     "C12": {"run": c12, "thorough_cfgs": ["default", "experimental"]},
     "C20": {"run": c20, "thorough_cfgs": ["default"]},
